@@ -45,6 +45,7 @@ fn generate(prop: &str, seed: u64, thorough: bool) -> Option<Plan> {
         "C01" => Some(scen_tcp::gen_c01(seed, thorough)),
         "C02" => Some(scen_udp::gen_c02(seed, thorough)),
         "C03" => Some(scen_ref::gen_c03(seed, thorough)),
+        "C03ustream" => Some(scen_ref::gen_c03_ustream(seed, thorough)),
         "C03keys" => Some(scen_ref::gen_c03_keys(seed, thorough)),
         "C04" => Some(scen_link::gen_c04(seed, thorough)),
         "C05" => Some(scen_link::gen_c05(seed, thorough)),
@@ -67,6 +68,7 @@ fn generate(prop: &str, seed: u64, thorough: bool) -> Option<Plan> {
         "C10" => Some(scen_c10::gen_c10(seed, thorough)),
         "C11model" => Some(scen_pw::gen_c11_model(seed, thorough)),
         "C11" => Some(scen_udp::gen_c11_system(seed, thorough)),
+        "C11srv" => Some(scen_hsrv::gen_c11_srv(seed, thorough)),
         "C12" => Some(scen_c12::gen_c12(seed, thorough)),
         "C12wrap" => Some(scen_c12::gen_c12_wrap(seed, thorough)),
         "C13" => Some(scen_local::gen_c13(seed, thorough)),
@@ -92,6 +94,7 @@ fn execute(plan: &Plan) -> Outcome {
         "teardown" => scen_c15::execute_c15(plan),
         "survival" => scen_c08::execute_c08(plan),
         "hostile-server" => scen_hsrv::execute_hsrv(plan),
+        "client-window" => scen_hsrv::execute_c11_srv(plan),
         "dgram-in-stream" => scen_ustream::execute_ustream(plan),
         "survival-udp" => scen_c08u::execute_c08u(plan),
         "udp-system" => scen_udp::execute_udp(plan),
@@ -101,6 +104,7 @@ fn execute(plan: &Plan) -> Outcome {
         "addresses" => scen_c14::execute_c14(plan),
         "addresses-udp" => scen_c14::execute_c14_udp(plan),
         "interop" => scen_ref::execute_c03(plan),
+        "interop-dgram-in-stream" => scen_ref::execute_c03_ustream(plan),
         "interop-key-chain" => scen_ref::execute_c03_keys(plan),
         "freshness" => scen_c10::execute_c10(plan),
         "nonces" => scen_c12::execute_c12(plan),
